@@ -396,4 +396,87 @@ def encodeAscii (s : List Char) : List UInt8 := s.map (fun c => UInt8.ofNat c.to
 def floorDiv (a b : Int) : Int := Int.fdiv a b
 def pyMod (a b : Int) : Int := Int.fmod a b
 
+
+/-! ### A dynamically typed index expression, as `AdvancedIndexingMixin.__getitem__` sees it
+
+The harness describes the object it passes by what Python and NumPy themselves say about it (`isinstance`, `len`, `np.asarray`), not by
+how it was generated: the classification is then done by the translated source. -/
+
+/-- what the code reads of an `np.ndarray` index: `ndim`, `dtype.kind`, `len` and, for a one-dimensional integer / Boolean array, the entries -/
+structure NdArr where
+  ndim : Nat
+  kind : Char
+  len0 : Nat
+  ints : List Int
+  bools : List Bool
+  deriving Repr, DecidableEq, Inhabited
+
+inductive IdxVal
+  | int (i : Int)                                   -- `int` / `np.integer`
+  | slice (a b c : Option (Option Int))             -- per field: `none` = None, `some none` = an object that is not an integer, `some (some i)`
+  | nd (a : NdArr)                                  -- an `np.ndarray`
+  | sized (len : Nat) (special : Bool) (asarr : Option NdArr)   -- any other object with a `len`; `special` = str / bytes / Mapping / Set;
+                                                    -- `asarr` = what `np.asarray` makes of it (`none`: it raises)
+  | unsized                                         -- `len()` raises `TypeError` (float, None, …)
+  deriving Repr, DecidableEq, Inhabited
+
+namespace IdxVal
+def isInt : IdxVal → Bool | .int _ => true | _ => false
+def isSlice : IdxVal → Bool | .slice .. => true | _ => false
+def isNd : IdxVal → Bool | .nd _ => true | _ => false
+def isSpecial : IdxVal → Bool | .sized _ sp _ => sp | _ => false
+def getInt : IdxVal → Int | .int i => i | _ => 0
+/-- `len(index)`: `none` = `TypeError` -/
+def len? : IdxVal → Option Nat
+  | .nd a => if a.ndim = 0 then none else some a.len0
+  | .sized n _ _ => some n
+  | _ => none
+def sliceFields : IdxVal → List (Option (Option Int))
+  | .slice a b c => [a, b, c]
+  | _ => []
+def fieldIsInt (f : Option (Option Int)) : Bool := match f with | some (some _) => true | _ => false
+def fieldInt? (f : Option (Option Int)) : Option Int := match f with | some (some i) => some i | _ => none
+def sliceHasOther : IdxVal → Bool
+  | .slice a b c => (a == some none) || (b == some none) || (c == some none)
+  | _ => true
+def sliceTuple : IdxVal → Option Int × Option Int × Option Int
+  | .slice a b c => (fieldInt? a, fieldInt? b, fieldInt? c)
+  | _ => (none, none, none)
+/-- `index.step == 0` (a non-integer step is not equal to 0; only exact numeric zero would be, which the harness never builds) -/
+def stepIsZero : IdxVal → Bool
+  | .slice _ _ c => c == some (some 0)
+  | _ => false
+def emptyInt : IdxVal := .nd { ndim := 1, kind := 'i', len0 := 0, ints := [], bools := [] }
+def asarrayFails : IdxVal → Bool
+  | .sized _ _ none => true
+  | .unsized => false      -- a scalar / None becomes a 0-d array
+  | _ => false
+def asarray : IdxVal → IdxVal
+  | .sized _ _ (some a) => .nd a
+  | .nd a => .nd a
+  | .int i => .nd { ndim := 0, kind := 'i', len0 := 0, ints := [i], bools := [] }
+  | _ => .nd { ndim := 0, kind := 'O', len0 := 0, ints := [], bools := [] }
+def arr : IdxVal → NdArr | .nd a => a | _ => default
+def ndim (v : IdxVal) : Int := (v.arr.ndim : Int)
+def kind (v : IdxVal) : Char := v.arr.kind
+def ints (v : IdxVal) : List Int := v.arr.ints
+def bools (v : IdxVal) : List Bool := v.arr.bools
+/-- `index.astype(np.intp)`: a signed 64-bit copy (values ≥ 2^63 of an unsigned array wrap) -/
+def astypeIntp : IdxVal → IdxVal
+  | .nd a => .nd { a with kind := 'i', ints := a.ints.map (fun v => if v ≥ 9223372036854775808 then v - 18446744073709551616 else v) }
+  | v => v
+def ltZero (v : IdxVal) : List Bool := v.ints.map (fun x => decide (x < 0))
+/-- `np.add(index, n, out=index, where=mask)` -/
+def addWhere (v : IdxVal) (n : Int) (mask : List Bool) : IdxVal :=
+  match v with
+  | .nd a => .nd { a with ints := List.zipWith (fun x (m : Bool) => if m then x + n else x) a.ints mask }
+  | v => v
+end IdxVal
+
+/-- the result of `__getitem__` on a packed collection: one signature or a new collection -/
+inductive CSel
+  | one (x : List Int)
+  | many (c : CArr)
+  deriving Repr, DecidableEq, Inhabited
+
 end GambitV.Py
